@@ -673,8 +673,17 @@ pub fn run_c12(a: &Args) {
             fam.push(HashSet::new());
         }
         for weighted in modes {
-            for gamma in [0.25, 0.5, 1.0, 1.5, 2.0] {
+            // "all resolutions > 0": the usual range and both ends of the f64 range
+            for gamma in [0.25, 0.5, 1.0, 1.5, 2.0, 1e-300, 1e-9, 1e9, 1e300] {
+                if gamma < 1e-8 || gamma > 1e8 {
+                    ctx::count("reach:extreme-resolution");
+                }
                 let want = oracle::modularity(&d, &comm, weighted, gamma);
+                if !want.is_finite() {
+                    // extreme weights times an extreme resolution overflow in the formula itself
+                    ctx::count("skipped:expected-modularity-not-finite");
+                    continue;
+                }
                 ctx::eval(1);
                 match guard("modularity", || partitions::modularity(&g, &fam, weighted, if gamma == 1.0 && rng.coin() { None } else { Some(gamma) })) {
                     Err(c) => ctx::violation(&format!("C12|modularity|{}|{}", c.class(), kind), "modularity panicked on a true partition", json!({"caught": c.json(), "graph": case.json(), "communities": comm})),
@@ -869,6 +878,13 @@ pub fn run_c13(a: &Args) {
             if rng.coin() { *rng.pick(&[1.3, 1.5, 1.7, 2.0]) } else { 1.1 + 0.9 * rng.f64() }
         } else if rng.coin() { *rng.pick(&[0.3, 0.7, 1.0, 1.0, 1.5, 2.0]) } else { 0.05 + 1.95 * rng.f64() };
         let threshold = if stars { *rng.pick(&[0.0, 0.0, 1e-7]) } else { *rng.pick(&[0.0, 1e-7, 1e-7, 1e-2, 0.5]) };
+        // the ends of the stated ranges: resolutions in (0,2], thresholds >= 0
+        let (gamma, threshold) = if !stars && rng.chance(1, 12) {
+            ctx::count("reach:extreme-resolution-or-threshold");
+            (*rng.pick(&[5e-324, 1e-300, 1e-12, 2.0, gamma]), *rng.pick(&[threshold, 5e-324, 1e300, f64::INFINITY]))
+        } else {
+            (gamma, threshold)
+        };
         let seed = match rng.below(12) {
             0 => u64::MAX - rng.below(3) as u64,
             1 => 1u64 << 63,
